@@ -4,13 +4,14 @@ import Asn1Verif.Front.TotalFront
   line protocol, stream `front` (C14): the composed front end of `Front/TotalFront.lean`
 
     front total <hex text> → ok | err parse:<class> | err resolve:<class> | panic tokenizer
-                           | abort | skip
+                           | skip
 
   The answer is `frontEnd text` — tokenizer model (`Front/Tokenizer.lean`: comments, control
   characters, Unicode, locations), `bridge`, parser model, single-module resolver model — rendered
   in the format of the harness (which appends the offending token to a parse error; the check
-  compares the class only).  `abort` = the resolver's chase budget is exhausted (the real code
-  overflows its stack).  `to_rust` / `to_protobuf` have no mirror here.
+  compares the class only).  The mirror never answers `abort` (`C14.front_end_resolve_total`);
+  a process abort of the real front end is a disagreement.  `to_rust` / `to_protobuf` have no
+  mirror here.
 
   `skip` (outside the domain of the mirror):
     * a `'` token followed, up to the next `'` token, by a token on another line: the real
@@ -65,7 +66,6 @@ def total (cs : List Char) : String :=
     match parseResolve (ts.map bridge) with
     | .ok _ => "ok"
     | .error (.parse, e) => "err parse:" ++ toString e
-    | .error (.resolve, .fuel) => "abort"
     | .error (.resolve, e) => "err resolve:" ++ toString e
 
 def handle (args : List String) : String :=
